@@ -134,7 +134,10 @@ impl Arena {
         let commit = self.commit.get();
         let offset = self.offset.get();
 
-        let beg = (offset + alignment - 1) & !(alignment - 1);
+        // Alignment is a property of the address, not of the offset: the base is only
+        // guaranteed to be page aligned, so align `base + offset` and translate back.
+        let base = self.base.as_ptr() as usize;
+        let beg = ((base + offset + alignment - 1) & !(alignment - 1)) - base;
         let end = beg + bytes;
 
         if end > commit {
